@@ -780,14 +780,89 @@ def tcp_cases(ctx, cases=None):
                         % ("arrived" if out.get("restart_ok") else "did not arrive within 20 s", final), case)
 
 
+def http_cases(ctx, cases=None):
+    """from_http_server (own run()/stop()): real HTTP requests on 127.0.0.1.  Redundant stop() / start() calls have no effect, nothing is
+    accepted while stopped, a restart serves again, every body is delivered once."""
+    import socket
+    from streamz import Source
+    if cases is None:
+        cases = [{"http": ["start", "post", "stop", "stop", "post-refused", "start", "start", "post", "stop"]},
+                 {"http": ["stop", "start", "post", "post", "stop", "start", "post", "stop", "stop"]}]
+    for case in cases:
+        out = {"raised": None, "refused": [], "codes": []}
+
+        async def main(case=case, out=out):
+            from tornado.httpclient import AsyncHTTPClient, HTTPRequest
+            sk = socket.socket()
+            sk.bind(("127.0.0.1", 0))
+            port = sk.getsockname()[1]
+            sk.close()
+            src = Source.from_http_server(port, asynchronous=True)
+            got = src.sink_to_list()
+            out["got"] = got
+            client = AsyncHTTPClient(force_instance=True)
+            k = 0
+            for step in case["http"]:
+                try:
+                    if step == "start":
+                        src.start()
+                        await asyncio.sleep(0.05)
+                    elif step == "stop":
+                        src.stop()
+                        await asyncio.sleep(0.05)
+                except Exception as e:      # noqa: BLE001
+                    out["raised"] = "%s() raised %s: %s" % (step, type(e).__name__, e)
+                    break
+                if step.startswith("post"):
+                    k += 1
+                    try:
+                        r = await client.fetch(HTTPRequest("http://127.0.0.1:%d/x" % port, method="POST", body="m%d" % k,
+                                                           connect_timeout=5, request_timeout=20), raise_error=False)
+                        out["codes"].append((k, r.code))
+                    except OSError:
+                        out["codes"].append((k, 599))
+            try:
+                src.stop()
+            except Exception:       # noqa: BLE001
+                pass
+            client.close()
+            await asyncio.sleep(0.05)
+        try:
+            asyncio.run(main())
+        except OSError as e:
+            ctx.count("http:skipped:" + type(e).__name__)
+            continue
+        ctx.case(case, nontrivial=True)
+        ctx.count("http:start-stop-history")
+        # expected: a POST while running is answered 200 and delivered once; a POST while stopped is refused (599) and not delivered
+        running, want, k = False, [], 0
+        for step in case["http"]:
+            if step == "start":
+                running = True
+            elif step == "stop":
+                running = False
+            elif step.startswith("post"):
+                k += 1
+                if running:
+                    want.append(("m%d" % k).encode())
+        got = list(out.get("got", []))
+        if out["raised"]:
+            ctx.failure("redundant-call-raised:from_http_server", "from_http_server under %r: %s" % (case["http"], out["raised"]), case,
+                        oracle="starting a started source or stopping a stopped one has no effect")
+        elif got != want:
+            ctx.failure("http:deliveries", "from_http_server under %r: delivered %r, the requests made while it was running are %r (status codes %r)"
+                        % (case["http"], got, want, out["codes"]), case)
+
+
 def run(ctx):
     ctx.audit()
     tcp_cases(ctx)
+    http_cases(ctx)
     ctx.assumptions += [
         "one event loop, one thread: start()/stop() are called on the loop thread (cross-thread races with a source on the background loop are out of scope)",
         "suspension points inside a polling cycle are not distinguished by the model (a cycle is atomic between begin and end); the harness places calls at each of them",
         "from_iterable's iterable is a finite list of distinct naturals, re-iterable (list-like) or a one-shot iterator (shared cursor)",
-        "sources overriding start()/stop() themselves: from_tcp by a small real-socket sample (oracle only); from_kafka* under C09; from_http_server, from_websocket not covered",
+        "sources overriding start()/stop() themselves: from_tcp by a small real-socket sample (oracle only); from_http_server by a small real-HTTP sample (oracle only); from_kafka* under C09; from_websocket not covered",
     ]
     n = 200 if not ctx.thorough() else 5000
     cases = [dict(c) for c in CORPUS]
@@ -826,6 +901,10 @@ def replay(ctx, data):
     scratch = tempfile.mkdtemp(prefix="verif-c18-")
     try:
         case = data["case"]
+        if case.get("http"):
+            http_cases(ctx, [case])
+            ctx.coverage["rule"] = "replay of one recorded case"
+            return
         if case.get("tcp"):
             tcp_cases(ctx, [case])
             ctx.coverage["rule"] = "replay of one recorded case"
